@@ -6,6 +6,7 @@ import PatchModel.Proto
 import PatchModel.Spec.Place
 import PatchModel.Model.Parse
 import PatchModel.Model.Cmdline
+import PatchModel.Spec.Script
 open PatchModel PatchModel.Proto
 
 def showOB : OptionalBool → String | .unset => "unset" | .yes => "yes" | .no => "no"
@@ -103,6 +104,12 @@ def respond (req : List String) : Except String String :=
           else if S.any (fun (_, f') => f' < f) then pure "bad:fuzz-not-least"
           else if 0 ≤ guess && S.contains (guess.toNat, 0) && (p, f) != (guess.toNat, 0) then pure "bad:not-at-stated-place"
           else pure "ok" : P String).run' rest
+  | "oracle_valid" :: rest => (do
+      -- is `hs` a diff of `a` (Spec.Valid) whose intended result (Spec.splice) is `b`?
+      let a ← pList pLine; let hs ← pList pHunk; let b ← pList pLine
+      if !validB a 0 0 hs then pure "bad:not-valid"
+      else if splice a 0 hs != b then pure "bad:splice-differs"
+      else pure "ok" : P String).run' rest
   | "cmdline" :: rest => (do
       let argv ← pList pBytes; let pc ← pBool
       let qs ← (do
